@@ -417,4 +417,42 @@ theorem pushDigits_digitsRev (n : Nat) (h : 0 < n) :
       rw [pushDigits_append _ _ _ _ h1 h2]
       simp
 
+/-! ### hex encoding of the decimal digits -/
+
+theorem digit_cases (c : Char) (h : c.isDigit = true) :
+    c = '0' ∨ c = '1' ∨ c = '2' ∨ c = '3' ∨ c = '4' ∨ c = '5' ∨ c = '6' ∨ c = '7' ∨ c = '8' ∨
+      c = '9' := by
+  have h1 : 48 ≤ c.toNat ∧ c.toNat ≤ 57 := by
+    simp only [Char.isDigit, Bool.and_eq_true, decide_eq_true_eq] at h
+    exact ⟨UInt32.le_iff_toNat_le.mp h.1, UInt32.le_iff_toNat_le.mp h.2⟩
+  have h2 : c = Char.ofNat c.toNat := (Char.ofNat_toNat c).symm
+  have h3 : c.toNat = 48 ∨ c.toNat = 49 ∨ c.toNat = 50 ∨ c.toNat = 51 ∨ c.toNat = 52 ∨ c.toNat = 53 ∨
+      c.toNat = 54 ∨ c.toNat = 55 ∨ c.toNat = 56 ∨ c.toNat = 57 := by omega
+  rcases h3 with e | e | e | e | e | e | e | e | e | e <;> rw [e] at h2 <;> simp [h2]
+
+theorem hexEncode_digits (ds : List Char) (h : ∀ c ∈ ds, c.isDigit = true) :
+    hexEncode (asciiBytes ds) = ds.flatMap (fun c => ['3', c]) := by
+  induction ds with
+  | nil => rfl
+  | cons c cs ih =>
+    have hc := digit_cases c (h c (by simp))
+    have ih' := ih (fun x hx => h x (by simp [hx]))
+    simp only [asciiBytes, hexEncode, List.map_cons, List.flatMap_cons] at ih' ⊢
+    rw [ih']
+    rcases hc with rfl | rfl | rfl | rfl | rfl | rfl | rfl | rfl | rfl | rfl <;> rfl
+
+theorem hexDecode_digits (ds : List Char) (h : ∀ c ∈ ds, c.isDigit = true) :
+    hexDecode (ds.flatMap (fun c => ['3', c])) = some (asciiBytes ds) := by
+  induction ds with
+  | nil => rfl
+  | cons c cs ih =>
+    have hc := digit_cases c (h c (by simp))
+    have ih' := ih (fun x hx => h x (by simp [hx]))
+    simp only [List.flatMap_cons, List.cons_append, List.nil_append, hexDecode, ih', asciiBytes,
+      List.map_cons]
+    rcases hc with rfl | rfl | rfl | rfl | rfl | rfl | rfl | rfl | rfl | rfl <;> rfl
+
+theorem toDigits_isDigit (n : Nat) : ∀ c ∈ Nat.toDigits 10 n, c.isDigit = true :=
+  fun _ hc => Nat.isDigit_of_mem_toDigits (by omega) (by omega) hc
+
 end Rustbus.Auth
